@@ -112,16 +112,26 @@ Definition format_values (vs : list bytes) : bytes := join_comma (map format_val
 Definition ident (qo qc : N) (s : bytes) : bytes :=
   match s with [] => [] | _ => [qo] ++ s ++ [qc] end.
 
-(** a complete quoted token for a scanner whose backslash handling is [esc]: the walker of
-    ClosedModel.v, started after the opening quote, consumes exactly the token, whatever follows. *)
-Definition quoted_token (esc : bool) (tok : bytes) : bool :=
-  match tok with
-  | q :: rest =>
-    is_quote q &&
-    match qloop (S (length rest)) q esc (length rest) (rest ++ [59%N; 10%N]) with
-    | Some (O, _) => true
-    | _ => false
+(** a closed literal token for a scanner whose backslash handling is [esc]: the token is a
+    sequence of complete quoted strings, i.e. the walker of ClosedModel.v (and Scanner.skipQuote)
+    started at its first byte is outside every quote exactly when the token ends, whatever follows.
+    (A doubled quote inside a literal is, for the scanner, one string ending and the next one
+    starting.) *)
+Fixpoint qsegs (f : nat) (esc : bool) (n : nat) (l : bytes) : bool :=
+  match f with
+  | O => false
+  | S f' =>
+    match n, l with
+    | S n1, q :: l1 =>
+      is_quote q &&
+      match qloop (S n1) q esc n1 l1 with
+      | Some (O, _) => true
+      | Some (n2, l2) => qsegs f' esc n2 l2
+      | None => false
+      end
+    | _, _ => false
     end
-  | [] => false
   end.
+Definition quoted_token (esc : bool) (tok : bytes) : bool :=
+  qsegs (S (length tok)) esc (length tok) (tok ++ [59%N; 10%N]).
 Definition lit_closed (o : opts) (tok : bytes) : bool := quoted_token (BackslashEscapes o) tok.
